@@ -132,6 +132,35 @@ func (r *Run) Bin(name string) string {
 	return filepath.Join(r.BinDir, name)
 }
 
+// workerOf maps a child mode to the worker binary that contains it. Each
+// worker is a separate build of the harness (build tag w_<name>) so that a
+// change of an internal dtail API breaks at most the in-process tier that uses
+// it; the drivers and the end-to-end tiers keep working.
+var workerOf = map[string]string{
+	"server": "server", "c03api": "c03", "c04api": "c04", "c05": "mapr", "c11": "mapr", "c11conc": "mapr", "c06merge": "mapr",
+	"c08api": "c08", "c10handler": "c10", "c16pure": "c16", "c16handler": "c16", "c16table": "c16", "c18api": "c18",
+}
+
+// WorkerBin returns the binary for a child mode and whether it exists.
+func (r *Run) WorkerBin(mode string) (string, bool) {
+	w, ok := workerOf[mode]
+	if !ok {
+		return r.Bin("vcheck"), true
+	}
+	p := r.Bin("vcheck-w-" + w)
+	if _, err := os.Stat(p); err != nil {
+		r.mu.Lock()
+		first := r.counters["worker_unavailable:"+w] == 0
+		r.counters["worker_unavailable:"+w]++
+		r.mu.Unlock()
+		if first {
+			fmt.Printf("WORKER-UNAVAILABLE property=%s worker=%s (does not build against this tree; its in-process tier is skipped)\n", r.Property, w)
+		}
+		return p, false
+	}
+	return p, true
+}
+
 // Dir creates (if needed) and returns a sub directory of the scratch dir.
 func (r *Run) Dir(parts ...string) string {
 	d := filepath.Join(append([]string{r.Scratch}, parts...)...)
